@@ -80,7 +80,8 @@ func (v *VerifCurator) C05Undelete(blob core.BlobID) core.Error {
 
 // VerifC05MetaGC is a twin Curator on which only gcMetadataLoop runs.
 type VerifC05MetaGC struct {
-	c *Curator
+	c   *Curator
+	gid []byte // "goroutine N " header prefix of the loop's goroutine
 }
 
 func scanGoroutines(f func(hdr, blk []byte) bool) bool {
@@ -128,7 +129,13 @@ func (d *VerifDurable) C05StartMetaGC() *VerifC05MetaGC {
 	for {
 		time.Sleep(2 * time.Millisecond)
 		if scanGoroutines(func(hdr, blk []byte) bool {
-			return bytes.Contains(blk, tag) && bytes.Contains(hdr, []byte("[sleep"))
+			if bytes.Contains(blk, tag) && bytes.Contains(hdr, []byte("[sleep")) {
+				if i := bytes.IndexByte(hdr, '['); i > 0 {
+					m.gid = append([]byte(nil), hdr[:i]...)
+				}
+				return true
+			}
+			return false
 		}) {
 			break
 		}
@@ -152,7 +159,7 @@ func (m *VerifC05MetaGC) Finish() {
 	for {
 		time.Sleep(5 * time.Millisecond)
 		blocked := scanGoroutines(func(hdr, blk []byte) bool {
-			return bytes.Contains(blk, tag) && bytes.Contains(blk, []byte("blockIfNotLeader"))
+			return bytes.HasPrefix(hdr, m.gid) && bytes.Contains(blk, tag) && bytes.Contains(blk, []byte("blockIfNotLeader"))
 		})
 		busy := scanGoroutines(func(hdr, blk []byte) bool { return bytes.Contains(blk, fin) })
 		if blocked && !busy {
